@@ -28,6 +28,12 @@ def main():
             for pat, cs in MAP:
                 if re.search(pat, f):
                     checks += [c for c in cs if c not in checks]
+            # C01's index-site inventory (tools/translate_sites.py) reads every header of these directories
+            if re.search(r"include/tapkee/(routines|methods|neighbors|utils|external)/", f) and "C01" not in checks:
+                checks.append("C01")
+        only = os.environ.get("HARMLESS_ONLY")          # e.g. HARMLESS_ONLY=C01: run just these checks
+        if only:
+            checks = [c for c in checks if c in only.split(",")]
         scratch = tempfile.mkdtemp(prefix="harmless-", dir="/var/tmp")
         try:
             repo = os.path.join(scratch, "repo")
